@@ -113,8 +113,10 @@ func concurrent(run *ev.Run, thorough bool) {
 			names = append(names, strings.Join(th, ";"))
 		}
 		desc := "concurrent: " + sc.name + ": setup " + strings.Join(sc.setup, " ") + " then " + strings.Join(names, " || ")
+		// wall-clock share of this scenario (all bounds): what does not finish inside it is reported as capped
+		deadline := run.DeadlineIn(time.Duration(run.Pick(60, 240)) * time.Second)
 		for b := 0; b <= bound; b++ {
-			st := vsched.Explore(vsched.Config{Name: sc.name, Bound: b, Stall: 120 * time.Second, MaxExec: run.Pick(3000, 60000)}, concBody(W, sc, idx))
+			st := vsched.Explore(vsched.Config{Name: sc.name, Bound: b, Stall: 120 * time.Second, MaxExec: run.Pick(3000, 60000), Deadline: deadline}, concBody(W, sc, idx))
 			if st.Infra != "" {
 				if st.StallReproduced {
 					run.Violation("call-never-returns-under-schedule", fmt.Sprintf("%s: the same schedule stalled three times: %s", sc.name, st.Infra), map[string]interface{}{"scenario": sc.name, "schedule": st.StallSchedule})
